@@ -33,6 +33,11 @@ pub const FEAT: &str = "eio-async";
 #[cfg(all(not(feature = "unstable"), not(feature = "eio"), not(feature = "eio-async")))]
 pub const FEAT: &str = "default";
 
+thread_local! { static LAST_DIGEST: std::cell::Cell<u64> = std::cell::Cell::new(0); }
+pub fn set_digest(d: u64) {
+    LAST_DIGEST.with(|c| c.set(d));
+}
+
 fn mk_sub(n: u64, scn: &str) -> Option<Box<dyn drv::Sub>> {
     macro_rules! arm {
         ($($k:literal),*) => {
@@ -77,13 +82,14 @@ fn run_tracked(n: u64, scn: &str, steps: &[Value]) -> Option<String> {
         d.1.set_peer(None);
         out.push_str(&d.1.take_out());
     }
-    let nd = drivers.len();
+    let mut dig = 0u64;
     for (k, d) in drivers.iter_mut().enumerate().rev() {
         // the main driver finishes last and writes the end-of-scenario event
         d.1.do_finish(k == 0);
         out.push_str(&d.1.take_out());
-        let _ = nd;
+        dig = dig.rotate_left(17) ^ d.1.digest();
     }
+    set_digest(dig);
     Some(out)
 }
 
@@ -95,11 +101,16 @@ fn main() {
     }
     let mut only: Option<usize> = None;
     let mut progress: Option<String> = None;
+    let mut digest: Option<String> = None;
     let mut k = 4;
     while k < args.len() {
         match args[k].as_str() {
             "--only" => {
                 only = args.get(k + 1).and_then(|s| s.parse().ok());
+                k += 2;
+            }
+            "--digest" => {
+                digest = args.get(k + 1).cloned();
                 k += 2;
             }
             "--progress" => {
@@ -120,6 +131,7 @@ fn main() {
         }
     };
     let mut out = std::io::BufWriter::with_capacity(1 << 20, std::fs::File::create(&args[3]).expect("create trace file"));
+    let mut digs = String::new();
     let mut nscn = 0usize;
     let mut unknown = 0usize;
     for (lineno, line) in BufReader::new(f).lines().enumerate() {
@@ -158,6 +170,7 @@ fn main() {
         };
         match text {
             Some(t) => {
+                digs.push_str(&format!("{} {:016x}\n", scn, LAST_DIGEST.with(|c| c.get())));
                 out.write_all(t.as_bytes()).expect("write trace");
                 nscn += 1;
             }
@@ -165,6 +178,9 @@ fn main() {
         }
     }
     out.flush().expect("flush");
+    if let Some(d) = &digest {
+        let _ = std::fs::write(d, digs);
+    }
     if let Some(p) = &progress {
         let _ = std::fs::write(p, "done\n");
     }
